@@ -302,7 +302,10 @@ pub fn run_monitors(names: &[String], case: &Case, r: &Record, only_finite_fault
             "ack" => monitors::mon_ack(&case.scn, r, &mut out),
             "amp" => monitors::mon_amp(&case.scn, r, &mut out),
             "txcons" => monitors::mon_txcons(&case.scn, r, &mut out),
-            "loss" => monitors::mon_loss(&case.scn, r, &mut out),
+            "loss" => {
+                monitors::mon_loss(&case.scn, r, &mut out);
+                monitors::mon_inflight(&case.scn, r, true, false, &mut out);
+            }
             "sendgate" => monitors::mon_sendgate(&case.scn, r, &mut out),
             other => panic!("unknown monitor {}", other),
         }
